@@ -110,6 +110,7 @@ type crpc struct {
 	half, cancelled    bool
 	reqIdx             int
 	sendFailed         bool
+	invoke             bool // made through ch.Invoke: the caller side is the library's own unary script
 	// raw server view
 	respIdx                       int
 	cur, curSize, curOff, curIdx  int
@@ -299,8 +300,10 @@ func (r *cRun) teardown() {
 		if p.cancel != nil {
 			p.cancel()
 		}
-		close(p.sendQ)
-		close(p.recvQ)
+		if p.sendQ != nil {
+			close(p.sendQ)
+			close(p.recvQ)
+		}
 	}
 	synctest.Wait()
 }
@@ -411,6 +414,43 @@ func (r *cRun) newRPCEarly(shape string, md metadata.MD, timeout time.Duration, 
 	})
 	if p.str == nil {
 		return nil
+	}
+	r.rpcs = append(r.rpcs, p)
+	return p
+}
+
+// invoke starts ch.Invoke (the unary call path) on a goroutine of its own; the
+// raw server answers it like any other stream.  Only the final result of
+// Invoke is observed.
+func (r *cRun) invoke(n int, timeout time.Duration) *crpc {
+	p := &crpc{shape: "U", invoke: true, cur: -1, reqIdx: 1, half: true, recvPend: true}
+	_, last, _, _ := r.ch.State()
+	p.sid = last + 1
+	op := fmt.Sprintf("c.invoke m=%s n=%d", hx([]byte("/v.S/U")), n)
+	var ctx context.Context
+	if timeout > 0 {
+		ctx, p.cancel = context.WithTimeout(r.rpcBase, timeout)
+		op += fmt.Sprintf(" timeout=%d", int64(timeout))
+	} else {
+		ctx, p.cancel = context.WithCancel(r.rpcBase)
+	}
+	sid := p.sid
+	r.step(op, func() {
+		go func() {
+			var resp wrapperspb.BytesValue
+			err := r.ch.Channel().Invoke(ctx, "/v.S/U", &wrapperspb.BytesValue{Value: msgValue("c", sid, 0, n)}, &resp)
+			switch {
+			case err == nil:
+				r.done(sid, "invoke", "msg:"+identify("s", sid, &resp, 64))
+			case strings.Contains(err.Error(), "channel is closed") || strings.Contains(err.Error(), "stream IDs exhausted"):
+				r.done(0, "invoke", fmtRes(err))
+			default:
+				r.done(sid, "invoke", fmtCarrier(err))
+			}
+		}()
+	})
+	if _, l2, _, _ := r.ch.State(); l2 != p.sid {
+		return nil // the stream was not created
 	}
 	r.rpcs = append(r.rpcs, p)
 	return p
@@ -594,13 +634,21 @@ func runCScenario(t *testing.T, ops *opsWriter, rng *rand.Rand, steps int, hosti
 				if rng.Intn(5) == 0 {
 					to = time.Duration(1+rng.Intn(3)) * time.Second
 				}
+				if rng.Intn(4) == 0 {
+					var to time.Duration
+					if rng.Intn(5) == 0 {
+						to = time.Duration(1+rng.Intn(3)) * time.Second
+					}
+					r.invoke(feasible([]int{16, 100, 5000, 16384}[rng.Intn(4)]), to)
+					continue
+				}
 				early := 0
 				if rng.Intn(4) == 0 {
 					early = feasible([]int{16, 100, 5000}[rng.Intn(3)])
 				}
 				r.newRPCEarly(shape, md, to, rng.Intn(15) == 0, "/v.S/"+shape, early)
 			case k < 22: // client send
-				p := pick(func(p *crpc) bool { return !p.sendPend && !p.half && !p.sendFailed })
+				p := pick(func(p *crpc) bool { return !p.invoke && !p.sendPend && !p.half && !p.sendFailed })
 				if p == nil {
 					continue
 				}
@@ -609,25 +657,25 @@ func runCScenario(t *testing.T, ops *opsWriter, rng *rand.Rand, steps int, hosti
 				}
 				r.callSend(p, feasible(dataSizes[rng.Intn(len(dataSizes))]))
 			case k < 27:
-				p := pick(func(p *crpc) bool { return !p.sendPend && (!p.half || rng.Intn(5) == 0) })
+				p := pick(func(p *crpc) bool { return !p.invoke && !p.sendPend && (!p.half || rng.Intn(5) == 0) })
 				if p == nil {
 					continue
 				}
 				r.callCloseSend(p)
 			case k < 40:
-				p := pick(func(p *crpc) bool { return !p.recvPend })
+				p := pick(func(p *crpc) bool { return !p.invoke && !p.recvPend })
 				if p == nil {
 					continue
 				}
 				r.callRecv(p)
 			case k < 44:
-				p := pick(func(p *crpc) bool { return !p.recvPend })
+				p := pick(func(p *crpc) bool { return !p.invoke && !p.recvPend })
 				if p == nil {
 					continue
 				}
 				r.callHeader(p)
 			case k < 48:
-				if p := pick(func(p *crpc) bool { return true }); p != nil {
+				if p := pick(func(p *crpc) bool { return !p.invoke }); p != nil {
 					r.callTrailer(p)
 				}
 			case k < 51:
